@@ -266,6 +266,7 @@ if P and P.get('kind') == 'py':
     PYLEXER = hs.basic_lexer_of(PYLARK)
     NPL = len(PY_INDENTS) * len(PY_LINES)
     PIN_PY = P.get('pin')
+    PIN_PY2 = P.get('pin2')
 
 
 def _py_reference(lines, ff_quirk=False):
@@ -358,10 +359,14 @@ def _py_body(rec, ls):
                     got.append(('L', t.line))
         except DedentError:
             err = 'DedentError'
-        if (err, got if err is None else None) != (werr, want if werr is None else None):
+        except AssertionError:
+            err = 'unbalanced'          # a close bracket that was never opened (lark asserts); the reference stops there too
+        if (err, got) != (werr, want):
             want2, werr2 = _py_reference(lines, ff_quirk=True)
-            if (err, got if err is None else None) == (werr2, want2 if werr2 is None else None):
+            if (err, got) == (werr2, want2):
                 rec['fkey'] = 'py:formfeed-in-blank-line-indentation'
+                return hs.fail(rec, 'INDENT/DEDENT structure of python.lark + PythonIndenter differs from the reference (form feed in a blank line)', text=text,
+                               got=got, want=want, ended=[err, werr])
         if err != werr:
             return hs.fail(rec, 'python.lark + PythonIndenter ended with %s, reference: %s' % (err, werr), text=text)
         if werr == 'DedentError':
@@ -398,7 +403,7 @@ def _py_body(rec, ls):
 
 def py(ls: List[int]) -> bool:
     """
-    pre: 1 <= len(ls) <= L and (PIN_PY is None or ls[0] == PIN_PY)
+    pre: 1 <= len(ls) <= L and (PIN_PY is None or ls[0] == PIN_PY) and (PIN_PY2 is None or (len(ls) >= 2 and ls[1] == PIN_PY2))
     post: _
     """
     return hs.run_path(_py_body, (ls,), corner=lambda ls: len(ls) == L and hs.sel(ls[L - 1], NPL) == NPL - 1)
@@ -425,8 +430,13 @@ def plan(tier, seed):
                            'timeout': 240 if quick else 3000, 'twin': pin == len(KINDS) - 1, 'bound': {'tokens': Lh, 'kinds': len(KINDS)}})
     Lp = 3 if quick else 4
     for pin in range(len(PY_LINES)):
-        slices.append({'id': 'py:lines%d:first%d' % (Lp, pin), 'func': 'py', 'mode': 'realised', 'params': {'kind': 'py', 'L': Lp, 'pin': pin}, 'timeout': 400 if quick else 3000,
-                       'twin': pin == 0, 'bound': {'lines': Lp, 'indentations': PY_INDENTS, 'line_kinds': PY_LINES}})
+        slices.append({'id': 'py:lines3:first%d' % pin, 'func': 'py', 'mode': 'realised', 'params': {'kind': 'py', 'L': 3, 'pin': pin}, 'timeout': 400,
+                       'twin': pin == 0, 'bound': {'lines': 3, 'indentations': PY_INDENTS, 'line_kinds': PY_LINES}})
+        if not quick and pin in (0, 2):
+            # four lines after a block opener / an open bracket, partitioned by the first two
+            for pin2 in range(len(PY_INDENTS) * len(PY_LINES)):
+                slices.append({'id': 'py:lines4:first%d:second%d' % (pin, pin2), 'func': 'py', 'mode': 'realised', 'params': {'kind': 'py', 'L': 4, 'pin': pin, 'pin2': pin2},
+                               'timeout': 600, 'twin': False, 'bound': {'lines': 4, 'indentations': PY_INDENTS, 'line_kinds': PY_LINES}})
     meta = {
         'rule': 'step: one path per (stack depth, indentation spelling, order relation between the symbolic indentation and the symbolic stack entries); '
                 'stream: one path per token stream (lazily realised); non-trivial = contains a newline token',
